@@ -1015,6 +1015,9 @@ func (in *Interp) exec(th *Thread, f *Frame, instr ssa.Instruction) {
 func (in *Interp) popFrame(th *Thread) {
 	f := th.top()
 	th.frames = th.frames[:len(th.frames)-1]
+	if in.ghostOn {
+		in.ghostReturn(f.fn, f)
+	}
 	if f.onReturn != nil {
 		f.onReturn(f.result)
 	}
@@ -1223,6 +1226,9 @@ func (in *Interp) invoke(th *Thread, fnv Value, args []Value, dst ssa.Value, isD
 	}
 	if fn.Blocks == nil {
 		panic(in.unsupported("no body and no model for " + fn.String()))
+	}
+	if in.ghostOn {
+		in.ghostCall(th, fn, args)
 	}
 	nf := in.pushFrame(th, fn, args, fv.bind, dst)
 	nf.isDefer = isDefer
